@@ -428,7 +428,7 @@ func init() {
 	register(&Check{
 		ID:    "C11",
 		Level: "exploration",
-		Rule: "each case is one seeded schedule of a concurrent workload (2-4 ingesters on 1-2 indexes, a flusher/rotator, 1-3 searchers, think times around the 5 s idle-flush period, the real idle/max-wait flush loops on the fake clock) on the real node; the interleaving is the PRNG-driven choice sequence of the baton scheduler (pre-emption probability 0-30% per yield point, GOMAXPROCS knob 1-16). Oracle: interval rules (a)-(d) of DESIGN §4 C11 over invoke/return sequence numbers, plus deadlock (wait-for cycle), hang (step/sim-time budget) and panic detection. distinct = distinct interleaving fingerprints (hash of the decision log); non-trivial = at least one context switch forced by the PRNG or a search overlapping a flush",
+		Rule: "each case is one seeded schedule of a concurrent workload (2-4 ingesters on 1-2 indexes, a flusher/rotator, 1-3 searchers, in one history in three the node's memory limiter evicting open-segment metadata (at the flusher's instants in half of those), think times around the 5 s idle-flush period, the real idle/max-wait flush loops on the fake clock) on the real node; the interleaving is the PRNG-driven choice sequence of the baton scheduler (pre-emption probability 0-30% per yield point, GOMAXPROCS knob 1-16). Oracle: interval rules (a)-(d) of DESIGN §4 C11 over invoke/return sequence numbers, plus deadlock (wait-for cycle), hang (step/sim-time budget) and panic detection. distinct = distinct interleaving fingerprints (hash of the decision log); non-trivial = at least one context switch forced by the PRNG or a search overlapping a flush",
 		Run: func(c *Ctx) {
 			n := 250
 			if !c.Quick() {
